@@ -983,7 +983,7 @@ func viewsCoq(vs []viewT) string {
 func main() {
 	args := common.ParseArgs()
 	run := common.NewRun(args, "C05", "HV.Record.Gob")
-	run.Shard = 100 // cases are a few KB each: smaller shards evaluate in parallel
+	run.Shard = 70 // cases are a few KB each: smaller shards evaluate in parallel
 	run.Meta.Rule = "non-trivial = the case stores at least one typed zero-like value (0, -0.0, \"\", false, empty bytes, empty uint32 set) or, for gob/value cases, the value is such a zero"
 	rig.Quiet()
 	fixed := hasHintField()
@@ -1043,7 +1043,7 @@ func main() {
 	// part 3: engine histories
 	root, _ := os.MkdirTemp("", "c05")
 	defer os.RemoveAll(root)
-	n := 230
+	n := 190
 	if args.Tier == "thorough" {
 		n = 1600
 	}
